@@ -367,6 +367,8 @@ def r4(repo, res):
                 break
         for rd, label in ((Obj(reference_id=-1, reference_name=None, reference_start=5, reference_end=6), "unmapped"),
                           (Obj(reference_id=0, reference_name="chr21", reference_start=5, reference_end=6), "other chromosome"),
+                          (Obj(reference_id=0, reference_name="chr122", reference_start=5, reference_end=6), "chromosome whose name ends with the region's"),
+                          (Obj(reference_id=0, reference_name="22", reference_start=5, reference_end=6), "contig without the file's prefix"),
                           (Obj(reference_id=0, reference_name="chr22", reference_start=5, reference_end=None), "no end")):
             k, v = Evaluator({"region": Region("22", 4, 8), "read": rd, "prefix": "chr"}).run(fn_body(g))
             if k != "return" or v:
@@ -541,6 +543,8 @@ MUTANTS = [
          new="                        if start + i in self.phaseable:\n                            phase[start + i] = \"_\"\n                    else:"),
     dict(name="R7 phase record keyed by the query index", module="sam", expect="C06.R7",
          old="                        if start + i in self.phaseable:\n                            phase[start + i] = \"_\"", new="                        if start + i in self.phaseable:\n                            phase[s_start + i] = \"_\""),
+    dict(name="R4 contig matched by suffix (seeded C19_b2 shape)", module="sam", expect="C06.R4",
+         old="    if read.reference_id == -1 or read.reference_name != prefix + region.chr:", new="    if read.reference_id == -1 or not read.reference_name.endswith(region.chr):"),
     # benign
     dict(name="benign: op chain rewritten", module="sam", kind="benign",
          old="            elif op in [0, 7, 8]:  # M, X and =", new="            elif op == 0 or op == 7 or op == 8:"),
